@@ -15,6 +15,7 @@ import (
 	"os"
 	"os/exec"
 	"path/filepath"
+	"runtime"
 	"strings"
 	"time"
 
@@ -40,6 +41,8 @@ import (
 	"github.com/magefile/mage/mg"
 )
 
+var Default = Probe
+
 // Probe reports what a target sees.
 func Probe(ctx context.Context) error {
 	cwd, _ := os.Getwd()
@@ -50,7 +53,7 @@ func Probe(ctx context.Context) error {
 		rem = int64(time.Until(dl))
 	}
 	b, _ := json.Marshal(map[string]interface{}{"cwd": cwd, "env": os.Environ(), "verbose": mg.Verbose(), "debug": mg.Debug(),
-		"gocmd": mg.GoCmd(), "remaining": rem, "stdin": hex.EncodeToString(sum[:]), "stdinLen": len(in)})
+		"gocmd": mg.GoCmd(), "plat": platName(), "remaining": rem, "stdin": hex.EncodeToString(sum[:]), "stdinLen": len(in)})
 	fmt.Println("PROBE " + string(b))
 	return nil
 }
@@ -134,6 +137,15 @@ func runCmdIO(dir string, env []string, stdin []byte, name string, args ...strin
 	}
 }
 
+// warnLine: the first line is the generated main's "<date> <time> warning: environment variable MAGEFILE_… is not a valid …"
+func warnLine(b []byte) bool {
+	j := bytes.IndexByte(b, '\n')
+	if j < 0 || j > 300 {
+		return false
+	}
+	return bytes.Contains(b[:j], []byte("warning: environment variable MAGEFILE_"))
+}
+
 var c11Durations = []string{"1h", "90m", "2h", "3h30m"}
 
 func envPairs(env []string, keep func(k string) bool) [][]string {
@@ -157,8 +169,26 @@ func c11(c *Ctx) {
 	proj2 := filepath.Join(root, "proj2")
 	work := filepath.Join(root, "work", "deep")
 	os.MkdirAll(work, 0o755)
-	writeFiles(proj, map[string]string{"go.mod": goMod("c11proj"), "magefile.go": c11Magefile})
-	writeFiles(proj2, map[string]string{"go.mod": goMod("c11proj2"), "magefiles/magefile.go": strings.Replace(c11Magefile, "//go:build mage\n\n", "", 1)})
+	// platName() is defined once per platform, in files selected by their _GOOS suffix: listing or compiling the
+	// magefiles for a GOOS found in the caller's environment picks the wrong one (or none)
+	platFile := func(goos string, tag bool) string {
+		h := ""
+		if tag {
+			h = "//go:build mage\n\n"
+		}
+		return h + "package main\n\nfunc platName() string { return \"" + goos + "\" }\n"
+	}
+	others := []string{"plan9", "windows", "darwin", "linux"}
+	pf := map[string]string{"go.mod": goMod("c11proj"), "magefile.go": c11Magefile, "plat_" + runtime.GOOS + ".go": platFile(runtime.GOOS, true)}
+	pf2 := map[string]string{"go.mod": goMod("c11proj2"), "magefiles/magefile.go": strings.Replace(c11Magefile, "//go:build mage\n\n", "", 1), "magefiles/plat_" + runtime.GOOS + ".go": platFile(runtime.GOOS, false)}
+	for _, o := range others {
+		if o != runtime.GOOS {
+			pf["plat_"+o+".go"] = platFile(o, true)
+			pf2["magefiles/plat_"+o+".go"] = platFile(o, false)
+		}
+	}
+	writeFiles(proj, pf)
+	writeFiles(proj2, pf2)
 	// a second go command (for -gocmd / MAGEFILE_GOCMD)
 	goWrap := filepath.Join(root, "mygo")
 	os.WriteFile(goWrap, []byte("#!/bin/sh\nexec go \"$@\"\n"), 0o755)
@@ -220,6 +250,9 @@ func c11(c *Ctx) {
 			d := c11Durations[r.Intn(len(c11Durations))]
 			if r.Chance(1, 8) {
 				d = []string{"0", "0s", "-1h"}[r.Intn(3)]
+				if way == "static" && d == "-1h" {
+					d = "0" // an already expired deadline makes the compiled binary fail or not by the scheduler's choice: C12's business
+				}
 				explicitNonPositive = true
 			}
 			argv = append(argv, "-t", d)
@@ -290,8 +323,15 @@ func c11(c *Ctx) {
 		} else {
 			sz := []int{0, 1, 100, 65537}[r.Intn(4)]
 			stdin = pattern(sz, byte(i))
-			argv = append(argv, caseVariant(r, "probe"))
-			tags = append(tags, "target=probe")
+			if r.Chance(1, 4) {
+				tags = append(tags, "target=default") // no target word: the default target (Probe) runs
+			} else {
+				argv = append(argv, caseVariant(r, "probe"))
+				tags = append(tags, "target=probe")
+			}
+		}
+		if argv == nil {
+			argv = []string{}
 		}
 		var rr runResIO
 		if way == "mage" {
@@ -302,7 +342,7 @@ func c11(c *Ctx) {
 		if explicitNonPositive {
 			tags = append(tags, "C11:explicit-false-or-zero-flag-vs-env")
 		}
-		in := J{"op": "mage.probe", "way": way, "funcs": c11Funcs, "argv": argv, "cwd": cwd, "conv": convRecord(argv), "durfmt": durfmt,
+		in := J{"op": "mage.probe", "way": way, "funcs": c11Funcs, "default": "Probe", "host": runtime.GOOS, "argv": argv, "cwd": cwd, "conv": convRecord(argv), "durfmt": durfmt,
 			"env": envPairs(runEnv, func(k string) bool { return strings.HasPrefix(k, "MAGEFILE_") || k == "HOME" })}
 		// MAGEFILE_TIMEOUT values need a conversion record too
 		conv := in["conv"].(J)
@@ -327,7 +367,17 @@ func c11(c *Ctx) {
 			}
 			want := pattern(m, 0xa5)
 			// verbose runs log the target name before it starts
-			got := bytes.TrimPrefix(rr.stderr, []byte("Running target: Payload\n"))
+			// (and the generated main warns about MAGEFILE_* values it cannot parse)
+			got := rr.stderr
+			for {
+				if bytes.HasPrefix(got, []byte("Running target: Payload\n")) || warnLine(got) {
+					if j := bytes.IndexByte(got, '\n'); j >= 0 {
+						got = got[j+1:]
+						continue
+					}
+				}
+				break
+			}
 			if !bytes.Equal(got, want) {
 				// with -debug / MAGEFILE_DEBUG the front end writes its own DEBUG lines to the same stream before the
 				// target starts: the payload must then be the tail of the stream (after the verbose line)
@@ -340,6 +390,7 @@ func c11(c *Ctx) {
 			in["project"] = "payload"
 		} else {
 			var p struct {
+				Plat      string
 				Cwd       string
 				Env       []string
 				Verbose   bool
@@ -360,7 +411,7 @@ func c11(c *Ctx) {
 			if !found {
 				impl["how"] = "no-probe: " + strings.TrimSpace(string(rr.stderr))
 			} else {
-				impl["verbose"], impl["debug"], impl["gocmd"], impl["cwd"] = p.Verbose, p.Debug, p.Gocmd, p.Cwd
+				impl["verbose"], impl["debug"], impl["gocmd"], impl["cwd"], impl["plat"] = p.Verbose, p.Debug, p.Gocmd, p.Cwd, p.Plat
 				// deadline: nearest candidate duration (the probe runs within seconds of the start)
 				to := int64(0)
 				if p.Remaining != 0 {
